@@ -36,9 +36,11 @@ def field_term(ch, a, b):
     return None
 
 
-def build(shape, assign, cfg, generic=False, ctx='alone', small_domain=False, probe=None):
+def build(shape, assign, cfg, generic=False, ctx='alone', small_domain=False, probe=None, bound=None, repr=None):
     """assign[vi] = string over c/i/m/l, one char per field"""
     traits, carrier = CFGS[cfg]
+    if bound:
+        traits = traits.replace('PartialEq', 'PartialEq(%s)' % bound, 1)
     tys, fattrs, doms = [], [], []
     salt = 0
     for vi, f in enumerate(shape.variants):
@@ -59,7 +61,7 @@ def build(shape, assign, cfg, generic=False, ctx='alone', small_domain=False, pr
     tyname = 'Ty<V>' if generic else 'Ty'
     if ctx != 'alone':
         traits = ('Hash, ' + traits) if ctx.endswith('before') else (traits + ', Hash')
-    src = S.render_type(shape, ['#[educe(%s)]' % traits], tys, fattrs, generics=gen, derives='Educe, Debug')
+    src = S.render_type(shape, ['#[educe(%s)]' % traits], tys, fattrs, generics=gen, derives='Educe, Debug', pre_attrs=(['#[repr(%s)]' % repr] if repr else []))
     vals = S.all_values(shape, doms)
     src += 'fn values() -> Vec<%s> {\n    vec![\n%s    ]\n}\n' % (tyname, ''.join('        %s,\n' % v for v in vals))
     arms = []
@@ -80,7 +82,7 @@ def build(shape, assign, cfg, generic=False, ctx='alone', small_domain=False, pr
         src += '    eq_laws(r, &vs, &|a, b| a == b);\n'
     src += '}\n'
     depth = sum(1 for a in assign for ch in a if ch != 'c') + (0 if cfg == 'P' else 1) + (1 if generic else 0) + (0 if ctx == 'alone' else 1)
-    key = 'C02|%s|%s|%s%s' % (cfg, shape.code(), ','.join(assign), ('|G' if generic else '') + ('' if ctx == 'alone' else '|' + ctx))
+    key = 'C02|%s|%s|%s%s' % (cfg, shape.code(), ','.join(assign), ('|G' if generic else '') + ('' if ctx == 'alone' else '|' + ctx) + ('|' + bound if bound else '') + ('|repr(%s)' % repr if repr else ''))
     spec = {'cfg': cfg, 'shape': shape.code(), 'assign': list(assign), 'generic': generic, 'ctx': ctx, 'values': len(vals)}
     return Case(key, src, spec, expect='accept', run=True, depth=depth)
 
@@ -148,6 +150,13 @@ def generate(tier):
     for sh in VERYWIDE:
         for assign in verywide_assignments(sh, 'cim'):
             cases.append(build(sh, assign, 'P', small_domain=True, probe=PROBE))
+    # explicit bound modes and #[repr] attributes (packed structs must not be compared through references that point into the wrong value; no mode may change the result)
+    for sh in [S.Shape('struct', [S.Fields('n', 2)]), S.Shape('struct', [S.Fields('t', 3)]), S.Shape('enum', [S.Fields('t', 2), S.Fields('n', 2)]), S.Shape('enum', [S.Fields('t', 4), S.Fields('n', 3), S.Fields('u')])]:
+        for assign in assignments_k(sh, 'cim', 1 if len(sh.positions()) <= 4 else 2):
+            for bound in ('bound(*)', 'bound = false', 'bound(u8: Copy)'):
+                cases.append(build(sh, assign, 'P', bound=bound, small_domain=True))
+            for repr in (('C', 'packed', 'C, packed(2)', 'align(8)', 'packed(1)') if sh.kind == 'struct' else ('C', 'u8', 'C, i16', 'align(4)')):
+                cases.append(build(sh, assign, 'PE' if len(repr) % 2 else 'P', repr=repr, small_domain=True))
     # two named variants that use the same field names at different positions (V0 {f0, f1}, V1 {f1, f0})
     for sh in [S.Shape('enum', [S.Fields('n', 2), S.Fields('n', 2)]), S.Shape('enum', [S.Fields('t', 1), S.Fields('n', 2)]), S.Shape('enum', [S.Fields('n', 1), S.Fields('u'), S.Fields('n', 3)])]:
         for assign in assignments(sh, 'cim'):
